@@ -39,9 +39,24 @@ def new_node_of(rng, lib, g, cname, meta=None):
     return i
 
 
+def _num(v):
+    """the number a scalar spec denotes once stored in a parameter (an int literal given to a float parameter is stored as
+    a float: `2` and `2.0` are the same value), else None"""
+    import struct
+    if isinstance(v, bool):
+        return None
+    if isinstance(v, int):
+        return float(v)
+    if isinstance(v, dict) and "f" in v:
+        return struct.unpack("!d", bytes.fromhex(v["f"]))[0]
+    return None
+
+
 def diff_scalar(rng, ty, lib, old):
     for _ in range(20):
         v = cfggen.gen_scalar(rng, ty, lib)
+        if ty == "float" and _num(v) is not None and _num(v) == _num(old):
+            continue
         if v != old and not (isinstance(v, bool) != isinstance(old, bool) and v == old):
             return v
     return None
@@ -334,7 +349,7 @@ def signature_edit(rng, lib, g, node=None, kinds=None):
                     if old is None:
                         if isinstance(a["ty"], str) or "enum" in a["ty"]:
                             nv = cfggen.gen_scalar(rng, a["ty"], lib)
-                            if "default" in a and nv == a["default"]:
+                            if "default" in a and (nv == a["default"] or (_num(nv) is not None and _num(nv) == _num(a["default"]))):
                                 continue
                             set_value(nd, a["name"], nv)
                             return g, {"node": n, "arg": a["name"], "kind": "set-unset-optional", "unamb": True}
@@ -350,7 +365,7 @@ def signature_edit(rng, lib, g, node=None, kinds=None):
                     for b in cands:
                         if a is not b and a["ty"] == b["ty"] and isinstance(a["ty"], str):
                             va, vb = effective(a, vals), effective(b, vals)
-                            if va is not None and vb is not None and va != vb:
+                            if va is not None and vb is not None and va != vb and not (_num(va) is not None and _num(va) == _num(vb)):
                                 set_value(nd, a["name"], vb)
                                 set_value(nd, b["name"], va)
                                 return g, {"node": n, "arg": a["name"], "kind": "swap-sibling-parameters", "unamb": True}
